@@ -229,6 +229,8 @@ struct RunResult {
 
 static void print_run(const struct RunResult &r, std::ostream &out, bool with_steps);
 static std::function<void(const struct RunResult &)> g_abort_printer;   // set by the mode (batch / explore)
+static std::function<void(const struct RunResult &)> g_pass_printer;    // called after the first pass of a two-pass run
+static int g_passes = 1;   // 2: Run() is called a second time on the same application object
 
 static RunResult collect(int rc, const std::string &err);
 
@@ -271,6 +273,24 @@ static RunResult run_once(int nw, int ktotal, int first_frame, long budget, bool
   std::cout.rdbuf(sink.rdbuf());
   std::cerr.rdbuf(esink.rdbuf());
   int rc = app.Exec((int)argv.size(), argv.data());
+  if (g_passes == 2 && rc == 0) {
+    // the same application object runs a second time (object reuse): report the first pass, then Run() again
+    std::cout.rdbuf(old);
+    RunResult r1 = collect(rc, "");
+    if (g_pass_printer) g_pass_printer(r1);
+    std::cout.rdbuf(sink.rdbuf());
+    G.readSeq.clear();
+    G.evalLog.clear();
+    G.mergeLog.clear();
+    G.evalAbs.clear();
+    G.max_in_reader = G.max_in_merge = 0;
+    try {
+      app.Run();
+    } catch (std::exception &e) {
+      rc = -1;
+      esink << e.what();
+    }
+  }
   std::cout.rdbuf(old);
   std::cerr.rdbuf(olde);
   S.active = false;
@@ -355,6 +375,28 @@ int main(int argc, char **argv) {
       std::string w;
       in >> w;
       if (w == "run") do_run_line(in);
+      if (w == "run2") {
+        // "run2 nw k budget ordered random seed": two passes on one application object
+        std::string rest;
+        std::getline(in, rest);
+        std::istringstream in2(rest);
+        int nw, k, ordered;
+        long budget;
+        std::string mode, arg;
+        in2 >> nw >> k >> budget >> ordered >> mode >> arg;
+        std::string beginrec = "{\"e\":\"begin\",\"nw\":" + std::to_string(nw) + ",\"k\":" + std::to_string(k) + ",\"b\":" +
+                               std::to_string(budget) + ",\"ord\":" + (ordered ? "true" : "false") + ",\"pass\":";
+        std::cout << beginrec << "1}\n";
+        g_abort_printer = [](const RunResult &r) { print_run(r, std::cout, true); };
+        g_pass_printer = [beginrec](const RunResult &r) {
+          print_run(r, std::cout, true);
+          std::cout << beginrec << "2}\n";
+        };
+        g_passes = 2;
+        RunResult r = run_once(nw, k, 0, budget, ordered != 0, {}, 1, std::stoul(arg));
+        g_passes = 1;
+        print_run(r, std::cout, true);
+      }
       if (w == "seek") {
         int ktotal, ff, nw, ordered;
         long budget;
